@@ -746,7 +746,10 @@ func registerStdlib(e *Engine) {
 	x["(*sync.Mutex).Lock"] = func(ex *Exec, c *frame, f *ssa.Function, a []Value) Value {
 		ls := lock(ex, a[0].(*Value))
 		if ls.w {
-			ex.end("blocked", "deadlock: Lock of a held sync.Mutex @ "+ex.stack())
+			if !ex.inThreads() {
+				ex.end("blocked", "deadlock: Lock of a held sync.Mutex @ "+ex.stack())
+			}
+			ex.blockOn(func() bool { return !ls.w }, "Lock of a held sync.Mutex")
 		}
 		ls.w = true
 		return nil
@@ -770,7 +773,10 @@ func registerStdlib(e *Engine) {
 	x["(*sync.RWMutex).Lock"] = func(ex *Exec, c *frame, f *ssa.Function, a []Value) Value {
 		ls := lock(ex, a[0].(*Value))
 		if ls.w || ls.r > 0 {
-			ex.end("blocked", "deadlock: Lock of a held sync.RWMutex @ "+ex.stack())
+			if !ex.inThreads() {
+				ex.end("blocked", "deadlock: Lock of a held sync.RWMutex @ "+ex.stack())
+			}
+			ex.blockOn(func() bool { return !ls.w && ls.r == 0 }, "Lock of a held sync.RWMutex")
 		}
 		ls.w = true
 		return nil
@@ -786,7 +792,10 @@ func registerStdlib(e *Engine) {
 	x["(*sync.RWMutex).RLock"] = func(ex *Exec, c *frame, f *ssa.Function, a []Value) Value {
 		ls := lock(ex, a[0].(*Value))
 		if ls.w {
-			ex.end("blocked", "deadlock: RLock of a write-held sync.RWMutex @ "+ex.stack())
+			if !ex.inThreads() {
+				ex.end("blocked", "deadlock: RLock of a write-held sync.RWMutex @ "+ex.stack())
+			}
+			ex.blockOn(func() bool { return !ls.w }, "RLock of a write-held sync.RWMutex")
 		}
 		ls.r++
 		return nil
@@ -1266,6 +1275,7 @@ func registerStdlib(e *Engine) {
 	registerTime(e)
 	registerProto(e)
 	registerCrypto(e)
+	registerThreads(e)
 	registerJSON(e)
 }
 
